@@ -46,8 +46,39 @@ def vpNeumann (dx d : K) : K × K := (dx * d, ((1:Nat):K))
 /-- `MixedBC` (finite `gamma`): `const = 2 dx beta/(2+dx gamma)`, `factor = (2-dx gamma)/(2+dx gamma)` -/
 def vpMixed (dx g b : K) : K × K :=
   (((2:Nat):K) * dx * b / (((2:Nat):K) + dx * g), (((2:Nat):K) - dx * g) / (((2:Nat):K) + dx * g))
-/-- `MixedBC` at places where the factor is not finite (`gamma = inf`): `(0, -1)` -/
+/-- `MixedBC` at places where the factor is not finite: `(0, -1)`
+(`const[~np.isfinite(factor)] = 0; factor[~np.isfinite(factor)] = -1`) -/
 def vpMixedInf : K × K := (((0:Nat):K), -((1:Nat):K))
+/-- `MixedBC.get_virtual_point_data` at one point, given the outcome `nf` of the test
+`~np.isfinite(factor)` at that point -/
+def vpMixedSel (nf : Bool) (dx g b : K) : K × K := if nf then vpMixedInf else vpMixed dx g b
+
+/-- a Robin coefficient `gamma` as the user can give it: a number or `±inf` -/
+inductive Coef (K : Type) where
+  | fin (x : K)
+  | inf
+
+/-- the number stored for a coefficient (irrelevant where the coefficient is infinite) -/
+def Coef.val : Coef K → K
+  | .fin x => x
+  | .inf => ((0:Nat):K)
+
+/-- the test `~np.isfinite(factor)` of `MixedBC.get_virtual_point_data` (and of the compiled
+`_get_virtual_point_data_1storder`): `factor = (2 - dx*gamma)/(2 + dx*gamma)` is `nan` for
+`gamma = ±inf` (`∓inf/±inf`) and `±inf` for a finite `gamma` with `2 + dx*gamma = 0`
+(`4/0`); for every other `gamma` it is a finite number -/
+def Coef.nonFinite [DecidableEq K] (dx : K) : Coef K → Bool
+  | .inf => true
+  | .fin g => decide (((2:Nat):K) + dx * g = ((0:Nat):K))
+
+/-- a *finite* coefficient for which the discrete Robin equation is singular -/
+def Coef.singular [DecidableEq K] (dx : K) : Coef K → Bool
+  | .inf => false
+  | .fin g => decide (((2:Nat):K) + dx * g = ((0:Nat):K))
+
+/-- `MixedBC.get_virtual_point_data` at one point: `(const, factor)` -/
+def vpMixedCode [DecidableEq K] (dx : K) (g : Coef K) (b : K) : K × K :=
+  vpMixedSel (g.nonFinite dx) dx g.val b
 /-- `_PeriodicBC`: `(0, ±1)` reading the opposite cell -/
 def vpPeriodic (flip : Bool) : K × K := (((0:Nat):K), if flip then -((1:Nat):K) else ((1:Nat):K))
 /-- `CurvatureBC`: `(value*dx^2, 2, -1)` on the two adjacent cells -/
@@ -76,13 +107,18 @@ constants, tensors, per-face arrays and expressions of the boundary coordinates 
 inductive Cond (K : Type) where
   | dirichlet (v : List Int → K)
   | neumann (d : List Int → K)
-  | mixed (g b : List Int → K)
-  | mixedInf
+  /-- `nf` = outcome of the test `~np.isfinite(factor)` at each value index (see `Cond.robin`) -/
+  | mixed (nf : List Int → Bool) (g b : List Int → K)
   | curvature (k : List Int → K)
   | periodic (flip : Bool)
   | exprValue (v : List Int → K)
   | exprDerivative (v : List Int → K)
   | exprMixed (g b : List Int → K)
+
+/-- the `MixedBC` on a face with grid spacing `dx`, coefficient `g` (numbers or `±inf`) and
+constant `b`: the branch taken at each point is decided as in the code -/
+def Cond.robin [DecidableEq K] (dx : K) (g : List Int → Coef K) (b : List Int → K) : Cond K :=
+  .mixed (fun vi => (g vi).nonFinite dx) (fun vi => (g vi).val) b
 
 /-- replace entry `i` of a list -/
 def setAt (l : List Int) (i : Nat) (x : Int) : List Int := l.set i x
@@ -129,13 +165,20 @@ def ghostValue (f : Face) (dx : K) (c : Cond K) (a : List Int → K) (idx : List
   match c with
   | .dirichlet v => ghost1 (vpDirichlet (v vi)) cell
   | .neumann d => ghost1 (vpNeumann dx (d vi)) cell
-  | .mixed g b => ghost1 (vpMixed dx (g vi) (b vi)) cell
-  | .mixedInf => ghost1 vpMixedInf cell
+  | .mixed nf g b => ghost1 (vpMixedSel (nf vi) dx (g vi) (b vi)) cell
   | .curvature k => ghost2 (vpCurvature dx (k vi)) cell (a (f.at idx (near2Idx f.N f.side)))
   | .periodic flip => ghost1 (vpPeriodic flip) (a (f.at idx (oppIdx f.N f.side)))
   | .exprValue v => exprValue (v vi) cell
   | .exprDerivative v => exprDerivative dx (v vi) cell
   | .exprMixed g b => exprMixed dx (g vi) (b vi) cell
+
+/-- does the expression evaluated for the ghost cell at `idx` divide by zero?  (only the target
+`mixed` of `ExpressionBC` contains a division: by `(value)*dx + 2`; numpy then yields `±inf`/`nan`,
+the compiled setter raises `ZeroDivisionError`) -/
+def divByZero [DecidableEq K] (f : Face) (dx : K) (c : Cond K) (idx : List Int) : Bool :=
+  match c with
+  | .exprMixed g _ => decide (g (f.valueIdx idx) * dx + ((2:Nat):K) = ((0:Nat):K))
+  | _ => false
 
 /-- `BCBase.set_ghost_cells` for one face: the new padded array -/
 def setGhost (f : Face) (dx : K) (c : Cond K) (a : List Int → K) : List Int → K :=
